@@ -48,7 +48,7 @@ def run(ctx):
         ctx.assumptions.append("TLC output reused from VERIF_FC_CACHE (mutation-testing aid, not a registered run)")
     else:
         behs = []
-        for cfg in ("MC_quick.cfg", "MC_iter.cfg"):
+        for cfg in ("MC_quick.cfg", "MC_len4.cfg", "MC_iter.cfg"):
             mc = ctx.tlc("floatchunk", "FloatChunk", cfg, workers=8, timeout=900)
             ctx.account(mc)
             ctx.log("%s: %d generated / %d distinct, %d behaviours" % (cfg, mc.generated, mc.distinct, len(mc.emitted)))
